@@ -75,37 +75,69 @@ def from_fluxes(rng):
     return tr
 
 
+def to_si_factor(units, comp):
+    """Units.tla: factor(SI) = 1, factor(GPU) = 3.35e-10, factor(kg/(m2 h kPa)) = 1 / (3600 M)"""
+    if units == "SI":
+        return 1.0
+    if units == "GPU":
+        return 3.35e-10
+    return 1.0 / (float(comp.molecular_weight) * 3.6e3)
+
+
 def from_permeances(rng):
     mix = gen.some_mixture(rng, p_builtin=0.6)
     T = rng.uniform(273.0, 400.0)
     units = rng.choice([KG, "SI", "GPU"])
     basis = rng.choice(["weight", "molar"])
-    comps, perms, pkg = [], [], []
+    comps, perms, pkg, supplied = [], [], [], []
+    same_object = rng.random() < 0.25
     for _ in range(rng.randrange(2, 6)):
         comps.append(pv.Composition(p=rng.uniform(0.02, 0.98), type=basis))
         v = (gen.logu(rng, 1e-6, 1.0), gen.logu(rng, 1e-6, 1.0))
-        p1 = pv.Permeance(v[0]).convert(units, mix.first_component)
-        p2 = pv.Permeance(v[1]).convert(units, mix.second_component)
+        # what is SUPPLIED is a raw number in the chosen unit, computed with the specification's factors (Units.tla), not with
+        # the library's converter; the Permeance objects are built from those raw numbers
+        raw = (v[0] * to_si_factor(KG, mix.first_component) / to_si_factor(units, mix.first_component),
+               v[1] * to_si_factor(KG, mix.second_component) / to_si_factor(units, mix.second_component))
+        p1 = pv.Permeance(value=raw[0], units=units)
+        p2 = pv.Permeance(value=raw[1], units=units)
+        if same_object:
+            # ONE Permeance object in both slots of the point: the same number in the caller's unit for both components
+            p2 = p1
+            raw = (raw[0], raw[0])
+            v = (v[0], raw[0] * to_si_factor(units, mix.second_component) / to_si_factor(KG, mix.second_component))
         perms.append((p1, p2))
-        pkg.append([F(p1.convert(KG, mix.first_component).value), F(p2.convert(KG, mix.second_component).value)])
+        supplied.append([F(raw[0]), F(raw[1])])
+        pkg.append([F(v[0]), F(v[1])])
     junk = rng.choice([None, None, 0.5])         # a permeate condition must not matter here
     d = pv.DiffusionCurve(mixture=mix, membrane_name="verif", feed_temperature=T, feed_compositions=comps, permeances=perms,
                           permeate_pressure=junk)
-    d2 = pv.DiffusionCurve(mixture=mix, membrane_name="verif", feed_temperature=T, feed_compositions=comps,
-                           partial_fluxes=[tuple(f) for f in d.partial_fluxes])
+    class Failed:                     # a construction that raised: reported as such (NaN values), never a crash of the recorder
+        def __init__(self, n):
+            self.permeances = [(pv.Permeance(float("nan")), pv.Permeance(float("nan"))) for _ in range(n)]
+    try:
+        d2 = pv.DiffusionCurve(mixture=mix, membrane_name="verif", feed_temperature=T, feed_compositions=comps,
+                               partial_fluxes=[tuple(f) for f in d.partial_fluxes])
+        d2_raised = False
+    except Exception:  # noqa: BLE001
+        d2, d2_raised = Failed(len(comps)), True
     # a third construction: fluxes AND permeances supplied together (permeances still in the caller's unit)
-    d3 = pv.DiffusionCurve(mixture=mix, membrane_name="verif", feed_temperature=T, feed_compositions=comps,
-                           partial_fluxes=[tuple(f) for f in d.partial_fluxes], permeances=list(perms))
+    try:
+        d3 = pv.DiffusionCurve(mixture=mix, membrane_name="verif", feed_temperature=T, feed_compositions=comps,
+                               partial_fluxes=[tuple(f) for f in d.partial_fluxes], permeances=list(perms))
+        d3_raised = False
+    except Exception:  # noqa: BLE001
+        d3, d3_raised = Failed(len(comps)), True
     tr = [{"ev": "CurveFromPermeances", "units": units, "T": F(T), "basis": basis, "mixname": mix.name, "probe": False}]
     for k, c in enumerate(comps):
         pf = pv.get_partial_pressures(T, mix, c)
-        tr.append({"ev": "PPoint", "x": F(c.p), "Psupplied": [F(perms[k][0].value), F(perms[k][1].value)], "Pkg": pkg[k],
+        tr.append({"ev": "PPoint", "x": F(c.p), "Psupplied": supplied[k], "Pkg": pkg[k],
                    "Pexposed": [F(d.permeances[k][0].value), F(d.permeances[k][1].value)],
                    "Punits": [d.permeances[k][0].units, d.permeances[k][1].units],
                    "J": [F(d.partial_fluxes[k][0]), F(d.partial_fluxes[k][1])], "pf": [F(pf[0]), F(pf[1])],
                    "Pre": [F(d2.permeances[k][0].value), F(d2.permeances[k][1].value)],
                    "Pboth": [F(d3.permeances[k][0].value), F(d3.permeances[k][1].value)],
-                   "Pboth_units": [d3.permeances[k][0].units, d3.permeances[k][1].units]})
+                   "Pboth_units": [d3.permeances[k][0].units, d3.permeances[k][1].units],
+                   "reRaised": d2_raised, "bothRaised": d3_raised})
     return tr
 
 
